@@ -478,6 +478,15 @@ Proof.
   intros Hwf. apply (C19_import_export h t (export_genesis cfg s)). now apply export_wf.
 Qed.
 
+Lemma prep_wf s s' : state_wf_exported s -> prep_zero_height s = Some s' -> state_wf_exported s'.
+Proof.
+  intros (W1 & W2 & W3 & W4) E.
+  destruct (C19_prep_contexts _ _ E) as (Hctx & _).
+  destruct (prep_frame _ _ E) as (Hd & Hbi & _ & _ & _ & _ & Hw & _).
+  unfold state_wf_exported. rewrite Hd, Hbi, Hw. repeat split; try assumption.
+  unfold wf, keys in *. rewrite Hctx, map_map. cbn [fst]. exact W4.
+Qed.
+
 (* InitGenesis accepts the zero-height export and the re-export is identical *)
 Corollary C19_zero_height_roundtrip cfg h t s s' :
   params_ok cfg -> bindings_ok s -> contexts_ok s -> state_wf_exported s ->
@@ -487,12 +496,7 @@ Corollary C19_zero_height_roundtrip cfg h t s s' :
 Proof.
   intros Hp Hb Hc Hwf E. unfold init_genesis.
   rewrite (C19_export_valid cfg s s' Hp Hb Hc E).
-  eexists. split; [reflexivity|]. apply C19_roundtrip.
-  destruct (C19_prep_contexts _ _ E) as (Hctx & _).
-  destruct (prep_frame _ _ E) as (Hd & Hbi & _ & _ & _ & _ & Hw & _).
-  destruct Hwf as (W1 & W2 & W3 & W4).
-  unfold state_wf_exported. rewrite Hd, Hbi, Hw. repeat split; try assumption.
-  unfold wf, keys in *. rewrite Hctx, map_map. cbn [fst]. exact W4.
+  eexists. split; [reflexivity|]. apply C19_roundtrip. exact (prep_wf _ _ Hwf E).
 Qed.
 
 (* ------------------------------------------------------------------ *)
@@ -612,62 +616,105 @@ Example ex_import_indexes :
   /\ reqs si = [] /\ earned si = [].
 Proof. vm_compute. repeat split. Qed.
 
-(* the named hypotheses hold of the example state, so the theorems apply to it *)
-Example ex_active_has_ctx : active_has_ctx ex_state.
-Proof.
-  intros r q Hin Ha. vm_compute in Hin.
-  repeat (destruct Hin as [Hin|Hin]; [injection Hin as <- <-; vm_compute; eauto|]). destruct Hin.
-Qed.
+(* ------------------------------------------------------------------ *)
+(* Boolean checkers for the named hypotheses (sound; used for the instances below
+   and available for checking corpus states by computation) *)
 
-Example ex_fees_nonneg : fees_nonneg ex_state.
-Proof.
-  split.
-  - intros r q Hin _. vm_compute in Hin.
-    repeat (destruct Hin as [Hin|Hin]; [injection Hin as <- <-; vm_compute; discriminate|]). destruct Hin.
-  - intros p e Hin. vm_compute in Hin.
-    repeat (destruct Hin as [Hin|Hin]; [injection Hin as <- <-; vm_compute; discriminate|]). destruct Hin.
-Qed.
+Fixpoint nodup_b {A} `{EqDec A} (l : list A) : bool :=
+  match l with [] => true | a :: t => negb (mem a t) && nodup_b t end.
 
-Example ex_records_ok : params_ok ex_cfg /\ bindings_ok ex_state /\ contexts_ok ex_state.
+Lemma nodup_b_sound {A} `{EqDec A} (l : list A) : nodup_b l = true -> NoDup l.
 Proof.
-  split; [reflexivity|]. split.
-  - intros kb Hin. vm_compute in Hin.
-    repeat (destruct Hin as [Hin|Hin]; [subst kb; vm_compute; reflexivity|]). destruct Hin.
-  - intros c rc Hin. vm_compute in Hin.
-    repeat (destruct Hin as [Hin|Hin]; [injection Hin as <- <-; vm_compute; reflexivity|]). destruct Hin.
-Qed.
-
-Lemma NoDup_nodupb {A} `{EqDec A} (l : list A) :
-  (fix nd (l : list A) : bool := match l with [] => true | a :: t => negb (mem a t) && nd t end) l = true -> NoDup l.
-Proof.
-  induction l as [|a t IH]; intros E; [constructor|].
+  induction l as [|a t IH]; cbn [nodup_b]; intros E; [constructor|].
   apply andb_prop in E as [E1 E2]. constructor; [|auto].
   apply negb_true_iff in E1. now apply mem_nIn.
 Qed.
 
-Example ex_state_wf : state_wf_exported ex_state.
-Proof. repeat split; apply NoDup_nodupb; vm_compute; reflexivity. Qed.
+Definition active_has_ctx_b (s : State) : bool :=
+  forallb (fun kv => negb (r_active (snd kv)) || has (rid_ctx (fst kv)) (ctxs s)) (reqs s).
 
-Example ex_single_owner : single_owner (export_genesis ex_cfg ex_prep).
+Lemma active_has_ctx_b_sound s : active_has_ctx_b s = true -> active_has_ctx s.
 Proof.
-  intros k1 b1 k2 b2 H1 H2 _. vm_compute in H1, H2.
-  repeat (destruct H1 as [H1|H1]; [injection H1 as <- <-|]); try destruct H1;
-    repeat (destruct H2 as [H2|H2]; [injection H2 as <- <-|]); try destruct H2; reflexivity.
+  unfold active_has_ctx_b, active_has_ctx. intros E r q Hin Ha.
+  rewrite forallb_forall in E. specialize (E _ Hin). cbn [fst snd] in E. rewrite Ha in E.
+  cbn [negb orb] in E. unfold has in E. destruct (get (rid_ctx r) (ctxs s)); [eauto|discriminate].
 Qed.
 
+Definition fees_nonneg_b (s : State) : bool :=
+  forallb (fun kv => negb (r_active (snd kv)) || (0 <=? r_fee (snd kv))) (reqs s)
+  && forallb (fun pe => 0 <=? snd pe) (earned s).
+
+Lemma fees_nonneg_b_sound s : fees_nonneg_b s = true -> fees_nonneg s.
+Proof.
+  unfold fees_nonneg_b, fees_nonneg. intros E. apply andb_prop in E as [E1 E2].
+  rewrite forallb_forall in E1, E2. split.
+  - intros r q Hin Ha. specialize (E1 _ Hin). cbn [snd] in E1. rewrite Ha in E1.
+    cbn [negb orb] in E1. now apply Z.leb_le.
+  - intros p e Hin. specialize (E2 _ Hin). cbn [snd] in E2. now apply Z.leb_le.
+Qed.
+
+Definition records_ok_b (cfg : Params) (s : State) : bool :=
+  params_valid cfg && forallb binding_valid (binds s)
+  && forallb (fun kc => ctx_struct_valid (snd kc)) (ctxs s).
+
+Lemma records_ok_b_sound cfg s : records_ok_b cfg s = true ->
+  params_ok cfg /\ bindings_ok s /\ contexts_ok s.
+Proof.
+  unfold records_ok_b. intros E. apply andb_prop in E as [E E3]. apply andb_prop in E as [E1 E2].
+  rewrite forallb_forall in E2, E3. repeat split; [assumption|exact E2|].
+  intros c rc Hin. exact (E3 _ Hin).
+Qed.
+
+Definition state_wf_exported_b (s : State) : bool :=
+  nodup_b (keys (defs s)) && nodup_b (keys (binds s)) && nodup_b (keys (wdaddr s)) && nodup_b (keys (ctxs s)).
+
+Lemma state_wf_exported_b_sound s : state_wf_exported_b s = true -> state_wf_exported s.
+Proof.
+  unfold state_wf_exported_b. intros E.
+  apply andb_prop in E as [E E4]. apply andb_prop in E as [E E3]. apply andb_prop in E as [E1 E2].
+  repeat split; now apply nodup_b_sound.
+Qed.
+
+Definition single_owner_b (g : Genesis) : bool :=
+  forallb (fun x => forallb (fun y =>
+    negb (snd (fst x) =? snd (fst y)) || (b_owner (snd x) =? b_owner (snd y))) (g_binds g)) (g_binds g).
+
+Lemma single_owner_b_sound g : single_owner_b g = true -> single_owner g.
+Proof.
+  unfold single_owner_b, single_owner. intros E k1 b1 k2 b2 H1 H2 Hk.
+  rewrite forallb_forall in E. specialize (E _ H1). rewrite forallb_forall in E. specialize (E _ H2).
+  cbn [fst snd] in E. rewrite Hk, Z.eqb_refl in E. cbn [negb orb] in E. now apply Z.eqb_eq.
+Qed.
+
+(* the named hypotheses hold of the example state, so the theorems apply to it *)
+Example ex_active_has_ctx : active_has_ctx ex_state.
+Proof. apply active_has_ctx_b_sound. vm_compute. reflexivity. Qed.
+
+Example ex_fees_nonneg : fees_nonneg ex_state.
+Proof. apply fees_nonneg_b_sound. vm_compute. reflexivity. Qed.
+
+Example ex_records_ok : params_ok ex_cfg /\ bindings_ok ex_state /\ contexts_ok ex_state.
+Proof. apply records_ok_b_sound. vm_compute. reflexivity. Qed.
+
+Example ex_state_wf : state_wf_exported ex_state.
+Proof. apply state_wf_exported_b_sound. vm_compute. reflexivity. Qed.
+
+Example ex_single_owner : single_owner (export_genesis ex_cfg ex_prep).
+Proof. apply single_owner_b_sound. vm_compute. reflexivity. Qed.
+
+Example ex_prep_eq : prep_zero_height ex_state = Some ex_prep.
+Proof. vm_compute. reflexivity. Qed.
+
 Example ex_theorems_apply :
-  bal ex_prep Escrow = 0
+  (exists s', prep_zero_height ex_state = Some s')
+  /\ bal ex_prep Escrow = 0
   /\ validate_genesis (export_genesis ex_cfg ex_prep) = true
   /\ index_consistent (import_genesis 0 0 (export_genesis ex_cfg ex_prep)).
 Proof.
-  assert (E : prep_zero_height ex_state = Some ex_prep) by (vm_compute; reflexivity).
   destruct ex_records_ok as (Hp & Hb & Hc).
-  split; [exact (C19_prep_escrow_empty _ _ ex_escrow_backed ex_active_has_ctx E)|].
-  split; [exact (C19_export_valid _ _ _ Hp Hb Hc E)|].
+  split; [exact (C19_prep_succeeds _ ex_escrow_backed ex_active_has_ctx ex_fees_nonneg)|].
+  split; [exact (C19_prep_escrow_empty _ _ ex_escrow_backed ex_active_has_ctx ex_prep_eq)|].
+  split; [exact (C19_export_valid _ _ _ Hp Hb Hc ex_prep_eq)|].
   apply C19_import_indexes; [|exact ex_single_owner].
-  apply export_wf. destruct (C19_prep_contexts _ _ E) as (Hctx & _).
-  destruct (prep_frame _ _ E) as (Hd & Hbi & _ & _ & _ & _ & Hw & _).
-  destruct ex_state_wf as (W1 & W2 & W3 & W4).
-  unfold state_wf_exported. rewrite Hd, Hbi, Hw. repeat split; try assumption.
-  unfold wf, keys in *. rewrite Hctx, map_map. exact W4.
+  apply export_wf. exact (prep_wf _ _ ex_state_wf ex_prep_eq).
 Qed.
